@@ -96,6 +96,10 @@ func runC06(c PairCase, o *run.Obs) error {
 		}
 		return nil
 	}
+	if c.Prelude > 0 && !c.OldNil {
+		diffPrelude(p, c.Prelude)
+		o.Label("after-an-abandoned-diff")
+	}
 	// 1. full DiffIter
 	n := 0
 	var cbErr error
